@@ -311,6 +311,19 @@ func solveOblig(r *FuncResult, o *Oblig, timeoutMs int, thorough bool) *SolveRes
 			break
 		}
 	}
+	// a proof that needs a little longer than the quick timeout (slow or loaded
+	// machine) must not turn into an alarm on an unchanged tree: one patient retry
+	if res.Status == "unknown" && !thorough {
+		q := buildQuery(r, o, 1)
+		res2 := solveQuery(o, q, timeoutMs*3, false, true)
+		res2.Level = 1
+		res2.Tried = append(res.Tried, res2.Tried...)
+		if res2.Status == "unsat" || res2.Status == "sat" {
+			res = res2
+		} else {
+			res.Tried = res2.Tried
+		}
+	}
 	res.Time = time.Since(t0).Seconds()
 	res.FR = r
 	return res
